@@ -26,6 +26,14 @@ Proof. reflexivity. Qed.
 Lemma K_dict_nonempty : forall n, dict_nonempty n = true <-> n > 0.
 Proof. intros; unfold dict_nonempty; rewrite Z.gtb_lt; lia. Qed.
 
+(* the constructor's field filter `(keep_fields is not None) and (fname not in keep_fields)` *)
+Definition keep_flag (keep : option (list name)) : option Z := match keep with Some _ => Some 0 | None => None end.
+Definition keep_list (keep : option (list name)) : list name := match keep with Some k => k | None => [] end.
+Lemma K_ctor_keep_filter : forall keep fname,
+  ctor_keep_given (keep_flag keep) && ctor_not_in_keep fname (keep_list keep)
+  = match keep with Some k => negb (mem fname k) | None => false end.
+Proof. intros [k|] fname; reflexivity. Qed.
+
 Definition same_shape (o o' : obj) : Prop :=
   keys (fields o') = keys (fields o) /\ fnl o' = fnl o /\ olen o' = olen o /\ oidx o' = oidx o.
 
